@@ -1156,7 +1156,9 @@ const NEST_SHAPES: &[(&str, &str, &str, &str, &str, &str)] = &[
     ("char_prefix", "package p is constant c : integer := ", "'1' ( ", "1", " )", " ; end ;"),
     ("literal_paren", "package p is constant c : integer := ", "1 ( ", "1", " )", " ; end ;"),
     ("null_paren", "package p is constant c : t := ", "null ( ", "1", " )", " ; end ;"),
-    ("bitstring_paren", "package p is constant c : t := ", "x\"a\" ( ", "1", " )", " ; end ;"),
+    // one level per line: the tokenizer re-reads the current line for every bit string literal (value_at),
+    // which is quadratic on a single line of 10^5 literals (100 s) — slow, but not what this class is about
+    ("bitstring_paren", "package p is constant c : t := ", "x\"a\" (\n", "1", " )", " ; end ;"),
     ("allocator", "package p is constant c : t := ", "new t ' ( ", "1", " )", " ; end ;"),
     ("allocator_constraint", "package p is constant c : t := ", "new t ( 1 to f ( ", "1", " ) )", " ; end ;"),
     ("attribute_parameter", "package p is constant c : integer := ", "a ' b ( ", "1", " )", " ; end ;"),
@@ -1484,8 +1486,11 @@ fn gen(seed: u64, tier: &str, out_path: &str) {
     // 10. nesting depth (regression of F41: limit 256 since 674ec0b), long iterative chains, nested
     //     interface subprograms; each on the main thread and on a 2 MiB-stack thread (`@2m`)
     let mut emit_recipe = |class: String, recipe: String| {
-        writeln!(f, "{} @{}", class, recipe).unwrap();
-        writeln!(f, "{}@2m @{}", class, recipe).unwrap();
+        // the round-2 shapes run their deepest variant on the 2 MiB thread only (the stricter of the two)
+        if !class.starts_with("deep2/") {
+            writeln!(f, "{} @{}", class, recipe).unwrap();
+        }
+        writeln!(f, "{}@2m @{}", class.replacen("deep2/", "deep/", 1), recipe).unwrap();
     };
     // depth-major order: the expensive depths are consecutive lines, which the round-robin sharding spreads evenly
     let round2_at = NEST_SHAPES.iter().position(|x| x.0 == ROUND2_FROM).unwrap();
@@ -1494,8 +1499,12 @@ fn gen(seed: u64, tier: &str, out_path: &str) {
             if k >= round2_at && (n == 20000 || n == 600) {
                 continue;
             }
+            // the external-name shapes cost 100 us per level (one diagnostic each): 10 s at 100000 levels; the quick
+            // tier runs them at 30000 (still 10x the depth that overflowed a stack), the thorough tier at 100000
+            let n = if n == 100000 && scale == 1 && name.starts_with("external_") { 30000 } else { n };
             for cu in ["c", "u"] {
-                emit_recipe(format!("deep/{}/{}/{}", name, n, cu), format!("nest:{},{},{}", name, n, cu));
+                let fam = if k >= round2_at && n >= 30000 { "deep2" } else { "deep" };
+                emit_recipe(format!("{}/{}/{}/{}", fam, name, n, cu), format!("nest:{},{},{}", name, n, cu));
             }
         }
     }
